@@ -222,6 +222,27 @@ var mutants = []Mutant{
 	{"C12", "plus-sign-accepted", "internal/ccdirectives.go", [][2]string{{"if len(r) == 0 || r[0] < '0' || r[0] > '9' {", "if len(r) == 0 || r[0] == '-' {"}}, "C12.18", "D80"},
 	{"C10", "meta-times-unchecked", "internal/entry.go", [][2]string{{"\tif resp.ReceivedAt, timeErr = time.Parse(time.RFC3339Nano, string(parts[2])); timeErr != nil {\n\t\treturn nil, fmt.Errorf(\"%w: response time: %w\", errInvalidMetaLine, timeErr)\n\t}\n", "\tresp.ReceivedAt, _ = time.Parse(time.RFC3339Nano, string(parts[2]))\n"}}, "C10.22", "D81"},
 	{"C01", "age-capped-at-2-31", "internal/freshness.go", [][2]string{{"\t\tageVal = v\n", "\t\tageVal = min(v, (1<<31)*time.Second)\n"}}, "C01.23", "D82"},
+	{"C02", "trailers-not-stripped", "roundtripper.go", [][2]string{{"\t\t\tstored.Data.Header.Del(field)\n\t\t\tstored.Data.Trailer.Del(field) // a field sent as a trailer is replayed as one\n\t\t}\n\t}\n\tinternal.SetAgeHeader(stored.Data, r.clock, freshness.Age)\n\tmisc :=", "\t\t\tstored.Data.Header.Del(field)\n\t\t}\n\t}\n\tinternal.SetAgeHeader(stored.Data, r.clock, freshness.Age)\n\tmisc :="}}, "C02.12", "D83 (hit path)"},
+	{"C02", "trailers-not-stripped-swr", "roundtripper.go", [][2]string{{"\t\t\tstored.Data.Trailer.Del(field) // a field sent as a trailer is replayed as one\n\t\t}\n\t}\n\tinternal.SetAgeHeader(stored.Data, r.clock, freshness.Age)\n\tinternal.CacheStatusStale", "\t\t}\n\t}\n\tinternal.SetAgeHeader(stored.Data, r.clock, freshness.Age)\n\tinternal.CacheStatusStale"}}, "C02.12", "D83 (stale-while-revalidate path)"},
+	{"C11", "date-lost-to-strip", "internal/responsestorerer.go", [][2]string{{"\tFixDateHeader(resp.Header, respTime)\n", ""}}, "C11.15", "D84"},
+	{"C09", "date-lost-to-strip", "internal/responsestorerer.go", [][2]string{{"\tFixDateHeader(resp.Header, respTime)\n", ""}}, "C09.17", "D84"},
+	{"C16", "late-304-merged", "roundtripper.go", [][2]string{{"if resp.StatusCode == http.StatusNotModified && !sentValidatorsOf(req, stored.Data.Header) {", "if false {"}}, "C16.15", "D85"},
+	{"C08", "late-304-compares-nothing", "helpers.go", [][2]string{{"\treturn req.Header.Get(\"If-None-Match\") == storedHdr.Get(\"ETag\") &&\n\t\treq.Header.Get(\"If-Modified-Since\") == storedHdr.Get(\"Last-Modified\")", "\treturn req != nil && storedHdr != nil"}}, "C08.13", "D85: the comparison replaced by a nil test"},
+	{"C02", "directive-map-edited-in-place", "roundtripper.go", [][2]string{{"\t\tfreshnessReq = maps.Clone(ccReq)\n", "\t\tfreshnessReq, _ = ccReq, maps.Clone(ccReq)\n"}}, "C02.13", "wave 6: the parser's map is edited"},
+	{"C03", "port-default-of-fixed-scheme", "internal/urlkeyer.go", [][2]string{{"\tdefaultP := defaultPort(scheme)\n", "\tdefaultP := defaultPort(\"https\")\n"}}, "C03.12", "wave 6"},
+	{"C04", "params-buffer-shared", "internal/normalization.go", [][2]string{{"outer:\n", "\tparams := make([]string, 0, 2)\nouter:\n"}, {"\t\tparams := make([]string, 0, 2)\n", "\t\tparams = params[:0]\n"}}, "C04.16", "wave 6: scratch slice shared between list members"},
+	{"C09", "params-buffer-shared", "internal/normalization.go", [][2]string{{"outer:\n", "\tparams := make([]string, 0, 2)\nouter:\n"}, {"\t\tparams := make([]string, 0, 2)\n", "\t\tparams = params[:0]\n"}}, "C09.19", "wave 6: scratch slice shared between list members"},
+	{"C04", "variant-unresolved-without-vary", "internal/responsestorerer.go", [][2]string{{"\tvaryResolved := maps.Collect(\n\t\tr.vhn.NormalizeVaryHeader(vary, req.Header),\n\t)\n", "\tvar varyResolved map[string]string\n\tif len(req.Header) > 0 {\n\t\tvaryResolved = maps.Collect(r.vhn.NormalizeVaryHeader(vary, req.Header))\n\t}\n"}}, "C04.17", "wave 6"},
+	{"C05", "error-reply-closed-by-defer", "internal/validationresponsehandler.go", [][2]string{{"\t\t\tccResp = ParseCCResponseDirectives(resp.Header)\n\t\t}\n\t\tccRespOnce = true\n", "\t\t\tccResp = ParseCCResponseDirectives(resp.Header)\n\t\t\tdefer resp.Body.Close()\n\t\t}\n\t\tccRespOnce = true\n"}}, "C05.15", "wave 6"},
+	{"C08", "error-reply-not-written-back", "internal/validationresponsehandler.go", [][2]string{{"\tcase r.ce.CanStoreResponse(resp, ctx.CCReq, ccResp):", "\tcase IsNonErrorStatus(resp.StatusCode) && r.ce.CanStoreResponse(resp, ctx.CCReq, ccResp):"}}, "C08.15", "wave 6"},
+	{"C13", "sie-guard-reads-error-reply", "internal/validationresponsehandler.go", [][2]string{{"\t\tif !storedCC.MustRevalidate() && !storedNoCache && !ctx.CCReq.NoCache() &&", "\t\tif !ccResp.MaxAgePresent() && !storedCC.MustRevalidate() && !storedNoCache && !ctx.CCReq.NoCache() &&"}}, "C13.14", "wave 6"},
+	{"C14", "marker-on-exact-multiple", "store/fscache/filenamer.go", [][2]string{{"\t\tif end < len(encoded) {", "\t\tif i+fragmentData <= len(encoded) {"}}, "C14.18", "wave 6"},
+	{"C14", "errors-is-swapped", "store/expapi/expapi.go", [][2]string{{"\t\tif err := conn.Delete(key); err != nil {\n\t\t\tif errors.Is(err, driver.ErrNotExist) {", "\t\tif err := conn.Delete(key); err != nil {\n\t\t\tif errors.Is(driver.ErrNotExist, err) {"}}, "C14.19", "wave 6"},
+	{"C15", "temp-prefix-in-alphabet", "store/fscache/fscache.go", [][2]string{{"const tmpPrefix = \".tmp-\"", "const tmpPrefix = \"_tmp-\""}}, "C15.8", "wave 6"},
+	{"C15", "temp-name-parent-pid", "store/fscache/fscache.go", [][2]string{{"tmpPrefix, os.Getpid(), tmpSeq.Add(1)", "tmpPrefix, os.Getppid(), tmpSeq.Add(1)"}}, "C15.9", "wave 6"},
+	{"C19", "enumerator-stops-at-empty-id", "internal/entry.go", [][2]string{{"\t\t\tif !yield(entry.ResponseID) {", "\t\t\tif entry.ResponseID == \"\" || !yield(entry.ResponseID) {"}}, "C19.14", "wave 6"},
+	{"C07", "enumerator-stops-at-empty-id", "internal/entry.go", [][2]string{{"\t\t\tif !yield(entry.ResponseID) {", "\t\t\tif entry.ResponseID == \"\" || !yield(entry.ResponseID) {"}}, "C07.13", "wave 6"},
+	{"C19", "location-index-deleted-unread", "internal/cacheinvalidator.go", [][2]string{{"\t\t\trefs, _ := r.cache.GetRefs(urlKey)\n\t\t\tfor h := range refs.ResponseIDs() {\n\t\t\t\tdeleteFn(h)\n\t\t\t}\n", "\t\t\tif locURL.Path != reqURL.Path {\n\t\t\t\trefs, _ := r.cache.GetRefs(urlKey)\n\t\t\t\tfor h := range refs.ResponseIDs() {\n\t\t\t\t\tdeleteFn(h)\n\t\t\t\t}\n\t\t\t}\n"}}, "C19.13", "wave 6"},
 }
 
 // MutantResult is one row of the kill matrix.
